@@ -18,6 +18,7 @@ TABLE = {
     'C20': ('harness.c01', lambda m, tier, only: m.main('C20', tier, only)),
     'C10': ('harness.c10', lambda m, tier, only: m.main('C10', tier, only)),
     'C12': ('harness.c10', lambda m, tier, only: m.main('C12', tier, only)),
+    'C19': ('harness.c19', lambda m, tier, only: m.main('C19', tier, only)),
     'C07': ('harness.c07', lambda m, tier, only: m.main('C07', tier, only)),
 }
 
